@@ -12,6 +12,7 @@ import (
 	"reflect"
 	"strconv"
 	"strings"
+	"sync"
 
 	am "github.com/pancsta/asyncmachine-go/pkg/machine"
 	ss "github.com/pancsta/asyncmachine-go/pkg/states"
@@ -74,7 +75,11 @@ func add(
 			}
 		} else {
 			// TODO source tx ID missings
-			go target.EvAdd(e, names, e.Args)
+			// don't block the source, but keep the order of piped mutations
+			args := e.Args
+			forkOrdered(target, func() {
+				target.EvAdd(e, names, args)
+			})
 		}
 	}
 }
@@ -129,7 +134,11 @@ func remove(
 			}
 		} else {
 			// TODO source tx ID missing
-			go target.EvRemove1(e, targetState, e.Args)
+			// don't block the source, but keep the order of piped mutations
+			args := e.Args
+			forkOrdered(target, func() {
+				target.EvRemove1(e, targetState, args)
+			})
 		}
 	}
 }
@@ -427,6 +436,54 @@ func Sync(
 // ///// INTERNAL
 
 // ///// ///// /////
+
+// pipeQueue is a FIFO of piped mutations for a single target machine.
+type pipeQueue struct {
+	mx      sync.Mutex
+	fns     []func()
+	running bool
+}
+
+// pipeQueues keeps a queue per target machine.
+var pipeQueues sync.Map
+
+// forkOrdered executes [fn] without blocking the caller, but after all the
+// previously forked funcs for the same [target]. A goroutine per event would
+// let a later Remove overtake an earlier Add, leaving the target in the
+// opposite state than the source.
+func forkOrdered(target am.Api, fn func()) {
+	v, loaded := pipeQueues.LoadOrStore(target, &pipeQueue{})
+	q := v.(*pipeQueue)
+	if !loaded {
+		target.OnDispose(func(id string, ctx context.Context) {
+			pipeQueues.Delete(target)
+		})
+	}
+
+	q.mx.Lock()
+	defer q.mx.Unlock()
+	q.fns = append(q.fns, fn)
+	if q.running {
+		return
+	}
+	q.running = true
+
+	go func() {
+		for {
+			q.mx.Lock()
+			if len(q.fns) == 0 {
+				q.running = false
+				q.mx.Unlock()
+				return
+			}
+			next := q.fns[0]
+			q.fns = q.fns[1:]
+			q.mx.Unlock()
+
+			next()
+		}
+	}()
+}
 
 func gcHandler(mach am.Api) am.HandlerDispose {
 	return func(id string, ctx context.Context) {
